@@ -51,6 +51,8 @@ RULE = ("seq: one case = 15-40 requests against a fresh real DB, 1-3 puts each, 
         "commits placed between the subscriber's read and its initial write, receives) compared with the transition system; "
         "msub (in the sub leg): several subscribers on two prefixes subscribing / closing / receiving between sequence puts in every order, incl. the scripted "
         "'A,B subscribe; A closes; C subscribes; puts; B closes; puts', compared with the tracker model (tstep) and checked directly; "
+        "30% of the sub / msub / rpc cases run on a shard with notifications disabled (E:0: db.EnableNotifications(false), resp. NewTermOptions{EnableNotifications:false}): "
+        "what subscribers observe must not depend on that switch (c16_latest_observed_notifications_disabled); "
         "rpc: one case = 8-20 steps through WriteBlock of a real rf=1 leader (sequence puts, deletes of the highest / of middle generated keys, other puts) with subscribers attached "
         "through publicRpcServer.GetSequenceUpdates before / between / after the writes, on the prefix and on another one, and leaving (stream context cancelled) in any order; distinct by generator sub-seed")
 LEGS = [
